@@ -36,7 +36,7 @@ fn add_types_recursive(
         new_closed(module, old(types)@, final(types)@),
     decreases unseen(module, old(types)@), // [C20.types-measure] a type is expanded only when the seen set strictly grew: at most one expansion per type»
 {
-    «broadcast use axiom_uarena_index_req, axiom_handle_key_model, axiom_mk_handle;
+    «broadcast use axiom_uarena_index_req, axiom_handle_key_model, axiom_mk_handle, vstd::std_specs::hash::group_hash_axioms;
     let ghost t = handle_index(ty);
     let ghost v0 = types@;»
     // Types can be shared, so only visit each type once.
@@ -72,7 +72,7 @@ fn add_types_recursive(
                     forall|a: int, b: int| seen(types@, a) && !seen(v0, a) && a != t && #[trigger] edge(module, a, b) ==> seen(types@, b),
                     forall|k: int, d: int| 0 <= k < it.index@ && #[trigger] reach(module, handle_index(members@[k].ty), d) ==> seen(types@, d),»
             {
-                «broadcast use axiom_uarena_index_req, axiom_handle_key_model, axiom_mk_handle;
+                «broadcast use axiom_uarena_index_req, axiom_handle_key_model, axiom_mk_handle, vstd::std_specs::hash::group_hash_axioms;
                 let ghost k = it.index@ as int;
                 let ghost vk = types@;
                 assert(*it.seq()[k] == members@[k]);
